@@ -1944,7 +1944,12 @@ class FileBuilder:
             dirs_to_remove.discard(os.path.normcase(dir_))
 
         for filename in self._new_cache.created_files():
-            if not self._old_cache.created_file(filename):
+            # Files from the previous build that we reused are left in place.
+            # Files from the previous build that we rebuilt are removed; if
+            # they were present before the build, restore_all() brings back
+            # their old contents.
+            if (not self._old_cache.created_file(filename) or
+                    self._new_cache.rebuilt_file(filename)):
                 FileBuilder._try_to_remove_file(filename)
         FileBuilder._remove_empty_dirs(list(dirs_to_remove))
 
